@@ -76,8 +76,10 @@ def descendants(el):
 
 @st.composite
 def scenarios(draw):
+    # (text nodes also probe local names: a filler must not see what the
+    # slot element it replaces defines, nor the macro's other locals)
     opts = {"ban": ("switch", "case", "on-error"), "max_elems": 6,
-            "rec": True}
+            "rec": True, "local_probes": True}
     ctx = tstrat.Ctx(draw, opts)
     n_macros = draw(st.integers(1, 3))
     macros = []
